@@ -276,6 +276,9 @@ func (st *Runtime) recover(err *error) {
 
 func (st *Runtime) executeSet(left Expression, right reflect.Value) {
 	typ := left.Type()
+	if typ == NodeUnderscore {
+		return // assigning to '_' discards the value
+	}
 	if typ == NodeIdentifier {
 		err := st.setValue(left.(*IdentifierNode).Ident, right)
 		if err != nil {
